@@ -550,6 +550,13 @@ Definition exec_mr (t : table) (req : bytes) : table * bytes :=
   | _ => (t, [128; 0; 19; 0])
   end.
 
+(* the PCCC command the target reads in a whole message-router request (its own parser) *)
+Definition target_view (req : bytes) : option pccc_cmd :=
+  match req with
+  | _ :: psz :: r => match parse_cmd (skipn (Z.to_nat (2 * psz)) r) with CmdOk c => Some c | _ => None end
+  | _ => None
+  end.
+
 (* the same as a handler behind the reference target core (TARGET.md) *)
 Definition slc_handler : handler table :=
   {| h_request := fun t _ _ rq =>
